@@ -95,6 +95,19 @@ Theorem C20_delay_agree_acceptor_sound : forall t0 t1 now d,
   (t0 <= now <= t1)%Z -> d_sec d = ((now + d_dur d) / ns_per_s)%Z -> agree_within t0 t1 d = true.
 Proof. exact agree_within_sound. Qed.
 
+(** two clocks: a Delay is built at clock reading [c] and stamped at some later time.  The stamp
+    is the Delay as built — Until(t) is stamped with exactly t, For(d) with c + d — and no clock
+    reading at stamping time enters ([stamp], [publish] take none): a Delay kept in a context or
+    returned by a caching generator and stamped seconds later still carries its own deadline *)
+Theorem C20_delay_until_stamped_exactly : forall c t m,
+  pm_until (stamp (mk_until c t) m) = MTime (t / ns_per_s)%Z
+  /\ pm_for (stamp (mk_until c t) m) = MDur (sat (t - c)%Z).
+Proof. exact stamp_until_exact. Qed.
+Theorem C20_delay_for_stamped_exactly : forall c d m,
+  pm_until (stamp (mk_for c d) m) = MTime ((c + d) / ns_per_s)%Z
+  /\ pm_for (stamp (mk_for c d) m) = MDur d.
+Proof. exact stamp_for_exact. Qed.
+
 (** the batch is atomic: the result of the delay loop is the first rejection; if there is none the
     whole batch goes on, each message with its own decision applied *)
 Theorem C20_delay_batch_atomic : forall g a t msgs,
@@ -214,6 +227,19 @@ Theorem C20_subscribe_same_order : forall stk heap ops,
   map fst (sw_out (srun stk heap ops)) = valid_emits heap ops.
 Proof. exact srun_out. Qed.
 
+(** a draining Close: everything the wrapped subscriber hands out before its own Close has returned
+    (ops [a] without a Close, then the Close) reaches the consumer, in order, and nothing after it *)
+Theorem C20_subscribe_delivers_until_close : forall stk heap a post,
+  count_closes a = 0 ->
+  map fst (sw_out (srun stk heap (a ++ SoClose :: post))) = valid_emits heap a.
+Proof. exact srun_out_until_close. Qed.
+Theorem C20_subscribe_all_emits_valid : forall heap a,
+  count_closes a = 0 ->
+  valid_emits heap a
+  = filter (fun i => match nth_error heap i with Some _ => true | None => false end)
+           (flat_map (fun o => match o with SoEmit i => [i] | _ => [] end) a).
+Proof. exact valid_emits_all. Qed.
+
 (** settling the received message settles the wrapped subscriber's message: the object's state
     is the C03 machine run on exactly the Ack/Nack calls made on it; the first one wins *)
 Theorem C20_settlement_transparent : forall stk heap ops i m,
@@ -301,6 +327,10 @@ Print Assumptions C20_delay_forwarded_metadata.
 Print Assumptions C20_delay_for_agrees.
 Print Assumptions C20_delay_until_agrees.
 Print Assumptions C20_delay_agree_acceptor_sound.
+Print Assumptions C20_delay_until_stamped_exactly.
+Print Assumptions C20_delay_for_stamped_exactly.
+Print Assumptions C20_subscribe_delivers_until_close.
+Print Assumptions C20_subscribe_all_emits_valid.
 Print Assumptions C20_delay_batch_atomic.
 Print Assumptions C20_delay_rejection_publishes_nothing.
 Print Assumptions C20_delay_none_rejected.
